@@ -18,4 +18,10 @@ open Emboss.View
 #print axioms C01_R_reported_by_G_partial
 #print axioms C01_G_equals_R_partial
 #print axioms C01_R_size_is_max_end_partial
+#print axioms C01_array_refines_R_partial
+#print axioms C01_R_array_reported_by_G_partial
 #print axioms C01_constants_partial
+#print axioms C01_moduleWF_iff
+#print axioms C01_sizeCovers_of_exact_folds
+#print axioms C01_sizeCovers_of_closed_folds
+#print axioms C01_ok_monotone_closed_folds
